@@ -6,6 +6,10 @@ import Ruint.Lemmas.Mul
 import Ruint.Props.C05
 import Ruint.Props.C06
 import Ruint.Model.History
+import Ruint.Props.C03
+import Ruint.Props.C10
+import Ruint.Props.C12
+import Ruint.Props.C13
 
 /-! Closure of the canonical set under every modelled producer (`Model/History.lean`). Each case of
 `eval_canon` is one reference to the producer's own specification theorem (its `Canon` conjunct). -/
@@ -206,6 +210,49 @@ theorem eval_canon (bits : ℕ) (regs : Regs) (h : AllCanon bits regs) (op : Op)
   | revbits d' a =>
     simp only [eval, Option.some.injEq, Prod.mk.injEq] at e; rw [← e.2]
     exact (C06.reverse_bits_spec bits _ (R a)).1
+
+  | div d' a b =>
+    simp only [eval] at e
+    split at e
+    · simp only [Option.some.injEq, Prod.mk.injEq] at e; rw [← e.2]; exact R a
+    · rename_i hz
+      have hb : val (rd bits regs b) ≠ 0 := (DivU.isZero_false_iff _).1 (by simpa using hz)
+      obtain ⟨q, e1, _, c⟩ := C03.wrapping_div_spec bits _ _ (R a) (R b) hb
+      simp only [e1, Option.map_some, Option.some.injEq, Prod.mk.injEq] at e; rw [← e.2]; exact c
+  | rem d' a b =>
+    simp only [eval] at e
+    split at e
+    · simp only [Option.some.injEq, Prod.mk.injEq] at e; rw [← e.2]; exact R a
+    · rename_i hz
+      have hb : val (rd bits regs b) ≠ 0 := (DivU.isZero_false_iff _).1 (by simpa using hz)
+      obtain ⟨q, e1, _, c⟩ := C03.wrapping_rem_spec bits _ _ (R a) (R b) hb
+      simp only [e1, Option.map_some, Option.some.injEq, Prod.mk.injEq] at e; rw [← e.2]; exact c
+  | gcd d' a b =>
+    have g := C12.gcd_spec bits _ _ (R a).val_lt (R b).val_lt
+    simp only [eval, g, Option.map_some, Option.some.injEq, Prod.mk.injEq] at e; rw [← e.2]
+    apply canon_toLimbs
+    -- gcd ≤ max a b < 2^bits (gcd 0 0 = 0)
+    rcases Nat.eq_zero_or_pos (val (rd bits regs a)) with h0 | hpos
+    · rw [h0, Nat.gcd_zero_left]; exact (R b).val_lt
+    · exact lt_of_le_of_lt (Nat.gcd_le_left _ hpos) (R a).val_lt
+  | addmod d' a b m =>
+    obtain ⟨r, e1, c, _⟩ := C10.add_mod_limbs_spec bits _ _ _ (R a) (R b) (R m)
+    simp only [eval, e1, Option.map_some, Option.some.injEq, Prod.mk.injEq] at e; rw [← e.2]; exact c
+  | mulmod d' a b m =>
+    obtain ⟨r, e1, c, _⟩ := C10.mul_mod_limbs_spec bits _ _ _ (R a) (R b) (R m)
+    simp only [eval, e1, Option.map_some, Option.some.injEq, Prod.mk.injEq] at e; rw [← e.2]; exact c
+  | wpow d' a x =>
+    simp only [eval, Option.some.injEq, Prod.mk.injEq] at e; rw [← e.2]
+    apply canon_toLimbs
+    rw [C13.wrapping_pow_spec bits _ _ (R a).val_lt]
+    exact Nat.mod_lt _ (by positivity)
+  | npow2 d' a =>
+    obtain ⟨k, hk1, hk2⟩ := C06.next_power_of_two_exists (val (rd bits regs a))
+    obtain ⟨h1, h2⟩ := C06.checked_next_power_of_two_spec bits _ (R a) k hk1 hk2
+    rcases Nat.lt_or_ge k bits with hk | hk
+    · obtain ⟨r, e1, c, _⟩ := h1 hk
+      simp only [eval, e1, Option.map_some, Option.some.injEq, Prod.mk.injEq] at e; rw [← e.2]; exact c
+    · simp [eval, h2 hk] at e
 
 theorem step_canon (bits : ℕ) (regs : Regs) (h : AllCanon bits regs) (op : Op) (hv : op.Valid) :
     AllCanon bits (step bits regs op) := by
